@@ -94,8 +94,67 @@ func c02Vertices(c *core.Case, id ref.ID, s string, pts []*object.Point, who str
 	return b, true
 }
 
+// c02Hammer: many goroutines ask for corners and centres at once (shared pool of IDs mixed with fresh ones; rows of
+// one zoom, so that row-keyed state is contended), each answer judged against the closed-form geometry.
+func c02Hammer(c *core.Case) {
+	r := c.R
+	G := []int{4, 16, 32, 64}[r.Intn(4)]
+	n := 2000
+	if c.Tier == "thorough" && c.I < 4 {
+		G, n = []int{16, 64, 8, 32}[c.I], 1500000
+	}
+	h := genZoom(r)
+	pool := make([]ref.ID, 2+r.Intn(63))
+	for i := range pool {
+		v := genZoom(r)
+		pool[i] = genID(r, h, h, v, v)
+	}
+	fresh := []float64{0, 0.5, 1}[r.Intn(3)]
+	c.KI(int64(G), int64(n), int64(len(pool)), h)
+	c.KS(pool[0].Ext())
+	c.NonTrivial()
+	c.Desc = func() any {
+		return map[string]any{"scenario": "concurrent vertex/centre queries", "goroutines": G, "calls_per_goroutine": n, "shared_pool": len(pool), "fraction_fresh_ids": fresh, "hZoom": h}
+	}
+	hammer(c, G, n, func(r *core.Rng, sc *core.Case) {
+		id := pool[r.Intn(len(pool))]
+		if r.P(fresh) {
+			v := genZoom(r)
+			hz := h
+			if r.P(0.2) {
+				hz = genZoom(r)
+			}
+			id = genID(r, hz, hz, v, v)
+		}
+		s := id.Ext()
+		vs, err := shape.GetPointOnExtendedSpatialId(s, enum.Vertex)
+		sc.Call()
+		if err != nil {
+			sc.Fail("vertex-error", nil, "GetPointOnExtendedSpatialId(%s, Vertex): %v", s, err)
+			return
+		}
+		b, ok := c02Vertices(sc, id, s, vs, "GetPointOnExtendedSpatialId")
+		if !ok || !r.P(0.3) {
+			return
+		}
+		ct, err := shape.GetPointOnExtendedSpatialId(s, enum.Center)
+		sc.Call()
+		if err != nil || len(ct) != 1 {
+			sc.Fail("centre-error", nil, "GetPointOnExtendedSpatialId(%s, Center): %v, %d points", s, err, len(ct))
+			return
+		}
+		if p := ct[0]; p.Lat() > b.n || p.Lat() < b.s || p.Lon() < b.w || p.Lon() > b.e || p.Alt() < b.b || p.Alt() > b.t {
+			sc.Fail("centre-outside-box", nil, "centre of %s (%v,%v,%v) lies outside its own corners", s, p.Lon(), p.Lat(), p.Alt())
+		}
+	})
+}
+
 func runC02(c *core.Case) {
 	r := c.R
+	if r.P(0.0005) || (c.Tier == "thorough" && c.I < 4) {
+		c02Hammer(c)
+		return
+	}
 	h, v := genZoom(r), genZoom(r)
 	if r.P(0.15) {
 		h = []int64{0, 1, 35, 34}[r.Intn(4)]
